@@ -68,18 +68,21 @@ class FileMap:
         self.src = []
         cur_o, cur_props = None, unit_props
         cur_fn, cur_src, in_fn = None, None, False
+        cur_fp = None
+        self.fn_props = []
         self.origin_props = {}
         for ln in self.lines:
             m = re.match(r'\s*// @ORIGIN (\S+) props=(\S*)', ln)
             if m:
                 cur_o = m.group(1)
                 self.origin_props[cur_o] = [p for p in m.group(2).split(',') if p]
-            m = re.match(r'\s*// @FN (\S+) src=(\S+)', ln)
+            m = re.match(r'\s*// @FN (\S+) src=(\S+)(?: props=(\S+))?', ln)
             if m:
                 cur_fn, cur_src, in_fn = m.group(1), m.group(2), True
+                cur_fp = m.group(3).split(',') if m.group(3) else None
             elif '// @ENDFN' in ln:
                 in_fn = False
-                cur_fn, cur_src = None, None
+                cur_fn, cur_src, cur_fp = None, None, None
             elif not in_fn:
                 m = re.match(r'\s*(?:pub\s+)?(?:open\s+|closed\s+|broadcast\s+)*(?:proof\s+|spec\s+|exec\s+)?fn\s+(\w+)', ln)
                 if m:
@@ -87,6 +90,7 @@ class FileMap:
             self.origin.append(cur_o)
             self.fn.append(cur_fn)
             self.src.append(cur_src)
+            self.fn_props.append(cur_fp)
 
     def tags_at(self, l0, l1):
         tags = []
@@ -141,7 +145,8 @@ def classify(diags, fmap, genfile, unit, cfg):
                 explicit = True
                 props |= set(p for p in ps if p != 'none')
         if not props and not explicit:
-            props = set(fmap.origin_props.get(origin, []))
+            fp = fmap.fn_props[line - 1] if 0 < line <= len(fmap.fn_props) else None
+            props = set(fp) if fp else set(fmap.origin_props.get(origin, []))
         rec['props'] = sorted(props)
         verification_msgs = ('postcondition not satisfied', 'precondition not satisfied', 'invariant not satisfied',
                              'assertion failed', 'possible arithmetic', 'decreases not satisfied', 'possible division by zero',
